@@ -37,6 +37,7 @@ inductive Op
   | removeDims (s : Nat) (vars : List Nat) | removeHigher (s nd : Nat)
   | unconstrain (s : Nat) (vars : List Nat)
   | closure (s : Nat)
+  | boundedAffineImage (s v : Nat) (lb ub : LinExpr) (den : Int)
   | expand (s v m : Nat) | fold (s : Nat) (vars : List Nat) (dest : Nat) | mapDims (s : Nat) (f : List (Option Nat))
   | intersection (s t : Nat) | hull (s t : Nat) | timeElapse (s t : Nat) | concat (s t : Nat)
 deriving Repr, Inhabited
@@ -65,8 +66,10 @@ def Op.admissible (w : World) : Op → Bool
   | .affineImage s v e den | .affinePreimage s v e den =>
     v < (w s).dim && e.coeffs.length == (w s).dim && den != 0
   | .generalizedAffineImage s v r e den =>
-    -- the strict relation symbols (`minimize()` in the middle, every point split) are not part of the model
-    v < (w s).dim && e.coeffs.length == (w s).dim && den != 0 && (r == .le || r == .eq || r == .ge)
+    -- strict relation symbols only on NNC polyhedra
+    v < (w s).dim && e.coeffs.length == (w s).dim && den != 0 && ((w s).nnc || r == .le || r == .eq || r == .ge)
+  | .boundedAffineImage s v lb ub den =>
+    v < (w s).dim && lb.coeffs.length == (w s).dim && ub.coeffs.length == (w s).dim && den != 0
   | .removeDims s vars => vars.all (· < (w s).dim) && vars.Pairwise (· < ·)
   | .removeHigher s nd => nd ≤ (w s).dim
   | .unconstrain s vars => vars.all (· < (w s).dim) && vars.Pairwise (· < ·)
@@ -105,6 +108,7 @@ def World.step (w : World) (op : Op) : World × Obs :=
   | .removeHigher s nd => (w.set s ((w s).removeHigherSpaceDimensions nd), .none)
   | .unconstrain s vars => (w.set s ((w s).unconstrain vars), .none)
   | .closure s => (w.set s (w s).topologicalClosureAssign, .none)
+  | .boundedAffineImage s v lb ub den => (w.set s ((w s).boundedAffineImage v lb ub den), .none)
   | .expand s v m => (w.set s ((w s).expandSpaceDimension v m), .none)
   | .fold s vars dest => (w.set s ((w s).foldSpaceDimensions vars dest), .none)
   | .mapDims s f => (w.set s ((w s).mapSpaceDimensions f), .none)
@@ -127,7 +131,7 @@ def Op.slots : Op → List Nat
   | .relationWithGen s _ _ | .bounds s _ _ | .maxMin s _ _ | .addConstraint s _ | .refineWithConstraint s _
   | .addGenerator s _ _ | .affineImage s _ _ _ | .affinePreimage s _ _ _ | .generalizedAffineImage s _ _ _ _
   | .embed s _ | .project s _ | .removeDims s _ | .removeHigher s _ | .unconstrain s _ | .closure s
-  | .expand s _ _ | .fold s _ _ | .mapDims s _ => [s]
+  | .expand s _ _ | .fold s _ _ | .mapDims s _ | .boundedAffineImage s _ _ _ _ => [s]
   | .contains s t | .equals s t | .intersection s t | .hull s t | .timeElapse s t | .concat s t | .copy s t => [s, t]
 
 end PPLV.PolyFull
